@@ -371,6 +371,7 @@ class PteraTransformer(NodeTransformer):
 
     def make_interaction(self, target, ann, value, orig=None, expression=False):
         """Create code for setting the value of a variable."""
+        prelude = []
         if ann and isinstance(target, ast.Name):
             self.annotated[target.id] = self._evaluate(ann)
             self.linenos[target.id] = target.lineno
@@ -389,6 +390,37 @@ class PteraTransformer(NodeTransformer):
         ):
             slc = target.slice
             slc = slc.value if isinstance(target.slice, ast.Index) else slc
+            if (
+                not expression
+                and isinstance(slc, ast.expr)
+                and not isinstance(slc, (ast.Constant, ast.Name, ast.Slice))
+                and self.should_instrument(target.value.id, ann)
+            ):
+                # The index is needed twice (for the key and for the store):
+                # evaluate the value, then the index, once each and in the
+                # order of the original statement
+                value_sym, index_sym = _gensym(), _gensym()
+                prelude = [
+                    ast.Assign(
+                        targets=[ast.Name(id=value_sym, ctx=ast.Store())],
+                        value=value_arg,
+                        lineno=orig.lineno,
+                        col_offset=orig.col_offset,
+                    ),
+                    ast.Assign(
+                        targets=[ast.Name(id=index_sym, ctx=ast.Store())],
+                        value=slc,
+                        lineno=orig.lineno,
+                        col_offset=orig.col_offset,
+                    ),
+                ]
+                value_arg = ast.Name(id=value_sym, ctx=ast.Load())
+                slc = ast.Name(id=index_sym, ctx=ast.Load())
+                target = ast.Subscript(
+                    value=target.value,
+                    slice=ast.Name(id=index_sym, ctx=ast.Load()),
+                    ctx=ast.Store(),
+                )
             value_args = [
                 target.value.id,
                 self._wrap_call("__ptera_Key", "index", deepcopy(slc)),
@@ -434,12 +466,13 @@ class PteraTransformer(NodeTransformer):
             )
         else:
             return [
+                *prelude,
                 ast.Assign(
                     targets=[target],
                     value=new_value,
                     lineno=orig.lineno,
                     col_offset=orig.col_offset,
-                )
+                ),
             ]
 
     def visit_body(self, stmts):
